@@ -53,7 +53,8 @@ fn case(srv: &mut Srv, seed: u64, res: &mut CaseResult) -> R<()> {
     let mut rng = Rng::new(seed);
     let ctx_a = srv.new_context()?;
     let ctxs = [ZERO_CONTEXT, ctx_a];
-    let names = ["h1", "h2"];
+    // prefix-related names: a lifecycle frame of one must never be taken for a lifecycle frame of another
+    let names = ["h", "hx", "h.sub"];
     // race forcing: delay the handler task before it subscribes
     let delay_ms = [0u64, 0, 5, 20][rng.below(4)];
     if delay_ms > 0 {
@@ -66,7 +67,7 @@ fn case(srv: &mut Srv, seed: u64, res: &mut CaseResult) -> R<()> {
     let mut active: BTreeMap<(usize, usize), bool> = BTreeMap::new();
     for ev in 0..n_events {
         let ci = rng.below(2);
-        let ni = rng.below(2);
+        let ni = rng.below(3);
         let ctx = ctxs[ci];
         let name = names[ni];
         let is_active = *active.get(&(ci, ni)).unwrap_or(&false);
@@ -106,7 +107,7 @@ fn case(srv: &mut Srv, seed: u64, res: &mut CaseResult) -> R<()> {
             "fail" => {
                 srv.must_append("fail", ctx, None, None, None)?;
                 // every handler of that context fails on it
-                for n2 in 0..2 {
+                for n2 in 0..3 {
                     active.insert((ci, n2), false);
                 }
             }
